@@ -57,6 +57,7 @@ type In struct {
 	Contend   int    `json:"contend"`    // goroutines of plugin 0 issuing unsolicited updates (contends the adaptation mutex)
 	DwellUs   int    `json:"dwell_us"`   // how long UpdateFn keeps the adaptation mutex
 	SyncLagUs int    `json:"synclag_us"` // SyncFn dwells this long between snapshot delivery and returning
+	FailSync  []int  `json:"fail_sync"`  // plugins whose Synchronize handler returns an error (never activated)
 	Seed      int64  `json:"seed"`
 }
 
@@ -261,7 +262,7 @@ func runCase(in In, dir string) (obs Obs) {
 		i := i
 		pobs[i].P = i
 		h := rt.Hooks{
-			Sync: func(pods []*api.PodSandbox, ctrs []*api.Container) {
+			Sync: func(pods []*api.PodSandbox, ctrs []*api.Container) error {
 				s := rt.Stamp()
 				n := int64(-1)
 				for _, p := range pods {
@@ -278,6 +279,12 @@ func runCase(in In, dir string) (obs Obs) {
 				pmu[i].Lock()
 				pobs[i].Syncs = append(pobs[i].Syncs, SyncObs{S: s, N: n, Ids: ids})
 				pmu[i].Unlock()
+				for _, f := range in.FailSync {
+					if f == i {
+						return fmt.Errorf("verif: plugin %d refuses the snapshot", i)
+					}
+				}
+				return nil
 			},
 			Create: func(_ *api.PodSandbox, c *api.Container) {
 				pmu[i].Lock()
@@ -518,6 +525,14 @@ func generate(o *hx.Opts) []In {
 		}
 		if r.Intn(4) == 0 {
 			in.SyncLagUs = []int{50, 200, 1000}[r.Intn(3)]
+		}
+		in.FailSync = []int{}
+		if r.Intn(8) == 0 && in.P > 1 {
+			for p := 1; p < in.P; p++ { // plugin 0 (the contender) always succeeds
+				if r.Intn(3) == 0 {
+					in.FailSync = append(in.FailSync, p)
+				}
+			}
 		}
 		if i%10 == 9 {
 			in.Kind = "hold"
